@@ -181,7 +181,7 @@ pub mod verif_mgr_local {
         pub fn as_bytes(&self) -> (r: &[u8; 32]) ensures *r == self.0.0 { unimplemented!() }
         /// Display: lower-case hex of the 32 bytes
         #[verifier::external_body]
-        pub fn to_string(&self) -> String { unimplemented!() }
+        pub fn to_string(&self) -> (r: String) ensures r@ == super::hex_of(*self) { unimplemented!() }
     }
     pub struct NodeCapacity { pub reliability_score: f64 }
     pub struct NodeInfo { pub id: NodeId, pub address: String, pub capacity: NodeCapacity }
@@ -189,7 +189,9 @@ pub mod verif_mgr_local {
     #[verifier::external_body] pub struct DhtCoreEngine { _p: u8 }
     impl DhtCoreEngine {
         #[verifier::external_body]
-        pub fn find_nodes(&self, key: &DhtKey, count: usize) -> (r: core::result::Result<Vec<NodeInfo>, VerifError>) { unimplemented!() }
+        pub fn find_nodes(&self, key: &DhtKey, count: usize) -> (r: core::result::Result<Vec<NodeInfo>, VerifError>)
+            ensures (r matches Ok(v) ==> super::found_spec(self, *key, count) == Some(v@)), (r is Err ==> super::found_spec(self, *key, count) is None),
+        { unimplemented!() }
     }
     /// `[u8; 32]::to_vec()`
     #[verifier::external_body]
@@ -209,10 +211,11 @@ pub mod verif_mgr_local {
 pub use verif_mgr_local::*;
 broadcast use {verif_mgr_local::axiom_key_model, verif_mgr_local::axiom_string_key_model};
 use std::collections::{HashMap, HashSet};
+use vstd::std_specs::iter::IteratorSpec;
 
 impl DhtNetworkManager {
     #[verifier::external_body]
-    fn is_local_peer_id(&self, peer_id: &str) -> bool { unimplemented!() }
+    fn is_local_peer_id(&self, peer_id: &str) -> (r: bool) ensures r == is_local(self, peer_id@) { unimplemented!() }
 }
 /// every listed node carries a DHT key, that key has been recorded, and no two listed nodes share one
 pub open spec fn listed_once(v: Seq<DHTNode>, seen: Set<Key>) -> bool {
@@ -239,5 +242,62 @@ pub proof fn lemma_listed_push(v: Seq<DHTNode>, seen: Set<Key>, n: DHTNode, k: K
     assert forall|q: Key| #[trigger] seen.insert(k).contains(q) implies exists|i: int| 0 <= i < w.len() && (#[trigger] w[i]).cached_dht_key == Some(DhtKey(q)) by {
         if q == k { assert(w[v.len() as int] == n); assert(n.cached_dht_key.unwrap() == DhtKey(k)); }
         else { let i = choose|i: int| 0 <= i < v.len() && (#[trigger] v[i]).cached_dht_key == Some(DhtKey(q)); assert(w[i] == v[i]); }
+    }
+}
+
+// ---- exactness of the local answer: nothing the node knows of that is closer is left out -------------
+/// is_local_peer_id as a function of the manager and the id text
+pub uninterp spec fn is_local(m: &DhtNetworkManager, s: Seq<char>) -> bool;
+/// the text NodeId's Display produces (lower-case hex of the 32 bytes)
+pub uninterp spec fn hex_of(id: NodeId) -> Seq<char>;
+/// what the engine's find_nodes returns for (key, count): some entries, or None for an error
+pub uninterp spec fn found_spec(e: &DhtCoreEngine, key: DhtKey, count: usize) -> Option<Seq<NodeInfo>>;
+pub open spec fn found_or_empty(e: &DhtCoreEngine, key: DhtKey, count: usize) -> Seq<NodeInfo> {
+    match found_spec(e, key, count) { Some(v) => v, None => Seq::<NodeInfo>::empty() }
+}
+/// the peers this answer is built from: connected peers with a known address and the table entries the engine
+/// returned, the local node excluded
+pub open spec fn known(m: &DhtNetworkManager, peers: Map<String, DhtPeerInfo>, found: Seq<NodeInfo>, k: Key) -> bool {
+    (exists|p: String| #[trigger] peers.contains_key(p) && peers[p].is_connected && !is_local(m, p@) && peers[p].addresses@.len() > 0 && peers[p].dht_key == k)
+    || (exists|j: int| 0 <= j < found.len() && !is_local(m, hex_of((#[trigger] found[j]).id)) && found[j].id.0.0 == k)
+}
+/// the answer names the peer with key k, or it is full and k is no closer than anything it names
+pub open spec fn named_or_not_closer(r: Seq<DHTNode>, count: usize, target: Key, k: Key) -> bool {
+    (exists|i: int| 0 <= i < r.len() && (#[trigger] r[i]).cached_dht_key == Some(DhtKey(k)))
+    || (r.len() == count && forall|i: int| 0 <= i < r.len() ==> (#[trigger] r[i]).cached_dht_key.is_some()
+            && !lex_lt(xor_seq(k, target), xor_seq(r[i].cached_dht_key.unwrap().0, target)))
+}
+pub open spec fn in_seq(v: Seq<DHTNode>, x: DHTNode) -> bool { exists|i: int| 0 <= i < v.len() && #[trigger] v[i] == x }
+pub open spec fn ranked_after_all(r: Seq<DHTNode>, x: DHTNode, key: Key) -> bool {
+    forall|i: int| 0 <= i < r.len() ==> rank_cmp(&#[trigger] r[i], &x, key) != std::cmp::Ordering::Greater
+}
+/// ASSUMED contract of the outlined tail `sort_by(compare_node_distance); into_iter().take(count).collect()`
+/// (std: stable sort by the comparator -- a total preorder, lemma_rank_cmp_is_a_total_preorder -- then a prefix)
+pub open spec fn tail_post(all: Seq<DHTNode>, count: usize, key: Key, r: Seq<DHTNode>) -> bool {
+    &&& r.len() == (if count <= all.len() { count as int } else { all.len() as int })
+    &&& forall|i: int| 0 <= i < r.len() ==> in_seq(all, #[trigger] r[i])
+    &&& forall|i: int, j: int| 0 <= i < j < r.len() ==> exists|a: int, b: int| 0 <= a < all.len() && 0 <= b < all.len() && a != b
+            && #[trigger] r[i] == all[a] && #[trigger] r[j] == all[b]
+    &&& forall|i: int, j: int| 0 <= i < j < r.len() ==> rank_cmp(&#[trigger] r[i], &#[trigger] r[j], key) != std::cmp::Ordering::Greater
+    &&& forall|a: int| 0 <= a < all.len() ==> in_seq(r, #[trigger] all[a]) || (r.len() == count && ranked_after_all(r, all[a], key))
+}
+pub proof fn lemma_local_answer(m: &DhtNetworkManager, all: Seq<DHTNode>, seen: Set<Key>, count: usize, key: Key, r: Seq<DHTNode>, k: Key)
+    requires listed_once(all, seen), tail_post(all, count, key, r), seen.contains(k),
+    ensures named_or_not_closer(r, count, key, k),
+{
+    let a = choose|a: int| 0 <= a < all.len() && (#[trigger] all[a]).cached_dht_key == Some(DhtKey(k));
+    if in_seq(r, all[a]) {
+        let i = choose|i: int| 0 <= i < r.len() && #[trigger] r[i] == all[a];
+        assert(r[i].cached_dht_key == Some(DhtKey(k)));
+    } else {
+        assert(r.len() == count && ranked_after_all(r, all[a], key));
+        assert forall|i: int| 0 <= i < r.len() implies (#[trigger] r[i]).cached_dht_key.is_some()
+                && !lex_lt(xor_seq(k, key), xor_seq(r[i].cached_dht_key.unwrap().0, key)) by {
+            assert(in_seq(all, r[i]));
+            let x = choose|x: int| 0 <= x < all.len() && #[trigger] all[x] == r[i];
+            assert(all[x].cached_dht_key.is_some());
+            assert(rank_cmp(&r[i], &all[a], key) != std::cmp::Ordering::Greater);
+            lemma_lex_trichotomy(xor_seq(r[i].cached_dht_key.unwrap().0, key), xor_seq(k, key));
+        }
     }
 }
